@@ -20,6 +20,20 @@ REDIS_TB = [
 ]
 
 PROPS = {
+    "C17": dict(
+        proof_modules=["KsVerif.Proofs.C17"],
+        families=["kfl.macro"],
+        rule="kfl.macro: fixed corpus (names as prefix/infix/suffix of identifiers, inside literals, after dots, "
+             "unbalanced and escaped quotes), every macro name of the regenerated table in every one of 11x11 "
+             "left/right contexts, seeded random concatenations of names, operators, literals and identifier pieces; "
+             "each text is expanded 13 times (Go re-randomises the map order on every call), and the result expanded "
+             "again; non-trivial = the text contains a macro name",
+        trusted_base=["Kfl/Macro.lean models ExpandMacros (regexp2 look-around semantics for this one pattern, ASCII)",
+                      "GenMacros.lean = the Macros() of every registered dissector, read by running the code"] + LIB,
+        assumptions=["regexp2 Replace scans left to right for non-overlapping matches of the original text",
+                     "order independence, idempotence and model = token spec are checked on every generated text, "
+                     "not yet proved for all texts"],
+    ),
     "C01": dict(
         proof_modules=["KsVerif.Proofs.C01"],
         families=["redis.raw"],
